@@ -19,7 +19,7 @@ Fixpoint first_word (t : bytes) (cur : bytes) : bytes :=
 Definition present (compressed : bool) (o : bytes) (x : leafstmt) : bool :=
   match x with
   | LDecl _ n v => contains n o && contains v o
-  | LComment t => compressed || contains (first_word t []) o
+  | LComment t => (compressed && negb (is_bang t)) || contains (first_word t []) o
   | LAt _ (Some a) => contains a o
   | LAt n None => contains n o
   | LError _ => true
